@@ -353,6 +353,9 @@ Definition generate_hotp_url (p : urlparam) : outcome url :=
 
 Definition all_ascii (s : bytes) : bool := forallb (fun c => c <? 128) s.
 
+(** strings.TrimPrefix(p, "/") *)
+Definition strip_slash (p : bytes) : bytes := match p with 47 :: t => t | q => q end.
+
 (** func ParseOTPAuthURL(u *url.URL) ( *URLParam, error) *)
 Definition parse_otpauth_url (u : option url) : outcome urlparam :=
   match u with
@@ -364,7 +367,7 @@ Definition parse_otpauth_url (u : option url) : outcome urlparam :=
       if negb (beq otp_type (s2b "totp")) && negb (beq otp_type (s2b "hotp"))
       then (if all_ascii (u_host u) then Err (EFmt T_url_type [] [otp_type]) else Err (EStd 20 []))
       else
-        let path := match u_path u with 47 :: t => t | p => p end in
+        let path := strip_slash (u_path u) in
         let '(issuer, account, found) := cut1 58 path in
         if negb found then Err (EFmt T_url_label [] [])
         else
